@@ -25,6 +25,10 @@ var c07SSO = mkSpace("authn", []fieldDim{
 	{"Decl", []string{"", "yes"}},
 	{"Quote", []string{"", "single"}},
 	{"Attrs", []string{"", "rev"}},
+	{"Lex", lexVals},
+	{"B64Wrap", []string{"", "76", "64crlf"}},
+	{"Flate", []string{"", "stored", "huffman", "fast", "flushed", "chunks"}},
+	{"CType", []string{"", "charset", "mixed-case", "charset-quoted"}},
 	{"Optional", []string{"", "all"}},
 	{"Frac", []string{"", "0", "3", "9"}},
 	{"Relay", []string{"", "none", "spacey"}},
@@ -52,6 +56,9 @@ var c07SSO = mkSpace("authn", []fieldDim{
 
 // the encoding / signing sub-space explored as a full product
 var c07SubDims = []string{"Sign", "KeyInfo", "CertText", "SignImpl", "Pct", "Space", "Order", "Encoding", "SPFlag", "IdPFlag", "Relay"}
+
+// the lexical / wire-level sub-space, also explored as a full product (crossed with transport, signature kind and prefix style)
+var c07LexDims = []string{"Lex", "Transport", "Sign", "B64Wrap", "Flate", "CType", "Prefix"}
 
 var spaceyRelay = "a b+c%41&d=e/f?g~h"
 
@@ -93,6 +100,15 @@ func c07Normalise(p *ssoP) bool {
 	if p.Encoding == "deflate" && p.Transport == "post" {
 		return false
 	}
+	if (p.B64Wrap != "" || p.CType != "") && p.Transport != "post" {
+		return false // RFC 2045 line breaks and a Content-Type belong to the POST binding
+	}
+	if p.Flate != "" && p.Transport != "" {
+		return false
+	}
+	if p.Lex != "" && p.SignImpl == "goxmldsig" {
+		return false // that signer serialises the signed document itself
+	}
 	return true
 }
 
@@ -130,6 +146,8 @@ var c07Logout = mkSpace("logout", []fieldDim{
 	{"Transport", []string{"", "redirect-enc", "redirect"}},
 	{"Prefix", []string{"", "default", "odd"}},
 	{"Decl", []string{"", "yes"}},
+	{"Lex", lexVals},
+	{"Wire", []string{"", "b64-76", "b64-64crlf", "ctype-charset", "flate-stored", "flate-flushed", "flate-chunks"}},
 	{"Session", []string{"", "two"}},
 	{"Relay", []string{"", "none"}},
 	{"NOOA", []string{"", "+1us", "+1y"}},
@@ -169,6 +187,7 @@ var c07AQ = mkSpace("attribute-query", []fieldDim{
 	{"SignImpl", []string{"", "goxmldsig"}},
 	{"Prefix", []string{"", "default", "odd"}},
 	{"Decl", []string{"", "yes"}},
+	{"Lex", lexVals},
 	{"Dest", []string{"", "absent"}},
 	{"Subject", []string{"", "bob"}},
 	{"Attrs", []string{"", "email", "email+username", "custom", "unknown", "email+email"}},
@@ -432,6 +451,21 @@ func runC07(ctx Ctx) int {
 		addS(vec)
 		return true
 	})
+	lex := &devx.Space{Name: "lex"}
+	var lidx []int
+	for _, n := range c07LexDims {
+		i := c07SSO.Dim(n)
+		lidx = append(lidx, i)
+		lex.Dims = append(lex.Dims, c07SSO.Dims[i])
+	}
+	lex.EnumFull(func(sv []int) bool {
+		vec := make([]int, len(c07SSO.Dims))
+		for j, i := range lidx {
+			vec[i] = sv[j]
+		}
+		addS(vec)
+		return true
+	})
 	report := func(v c07Verdict, site string, labels []string, rp c07Replay) {
 		run.Evaluations.Add(1)
 		run.Outcome(v.Class)
@@ -480,7 +514,7 @@ func runC07(ctx Ctx) int {
 	run.Sample(sItems[len(sItems)/2].p)
 	run.Sample(lItems[len(lItems)/2].p)
 	run.Sample(aItems[len(aItems)/2].p)
-	finishCapped(run, c1 && c2 && c3, fmt.Sprintf("AuthnRequest: %d shapes (k<=%d over %d dims + full product of %d sub-space dims); LogoutRequest: %d (k<=3); AttributeQuery: %d (k<=3)", len(sItems), k, len(c07SSO.Dims), len(c07SubDims), len(lItems), len(aItems)))
+	finishCapped(run, c1 && c2 && c3, fmt.Sprintf("AuthnRequest: %d shapes (k<=%d over %d dims + full products of the %d signing and 7 lexical / wire-level sub-space dims); LogoutRequest: %d (k<=3); AttributeQuery: %d (k<=3)", len(sItems), k, len(c07SSO.Dims), len(c07SubDims), len(lItems), len(aItems)))
 	return run.Finish()
 }
 
